@@ -108,6 +108,10 @@ pub struct ArenaRt {
     pub cycle_allocs_total: usize,
     /// allocations of Gc objects since the arena was created
     pub allocs: usize,
+    /// value of `allocs` when the running sweep began (allocations happen in callbacks only, so
+    /// the count at the end of the collection call that entered Sweeping is the count at the
+    /// sweep's start); None outside a sweep or when a cycle boundary may have been crossed unseen
+    pub allocs_at_sweep_start: Option<usize>,
     /// objects resurrected etc. for C07.dead-set: Some(set of ids expected to be destructed by
     /// the running cycle) while nothing was mutated after the finalize callback
     pub dead_set: Option<BTreeSet<Id>>,
@@ -151,6 +155,7 @@ impl Default for ArenaRt {
             pacing_changed: false,
             cycle_allocs_total: 0,
             allocs: 0,
+            allocs_at_sweep_start: None,
             dead_set: None,
             dead_set_base: BTreeSet::new(),
             faulted_cycle: false,
@@ -431,6 +436,15 @@ impl World {
                 }
                 if in_closure(&rt.adopted_cur) || in_closure(&rt.adopted_prev) {
                     aliases.push("C06.adopted-lost".to_string());
+                }
+            }
+            // reachable only through an object that a slice / slice-with-header builder completed?
+            // Then "the object is subsequently collected like any other" (C18) did not hold for
+            // that object: it holds pointers and was not treated as a holder of pointers
+            if self.sh.arena_alive(a) {
+                let without = self.sh.clone_arena_without_edges_of(a, |k| matches!(k, Kind::Slice { .. } | Kind::Swh { .. }));
+                if !without.reach(a).contains(&oid) {
+                    aliases.push("C18.completed-holder".to_string());
                 }
             }
             // the shared object of a reachable ZstCache: every Gc<T> the cache handed out is this
